@@ -17,6 +17,13 @@ func init() {
 // third document; term "r" occurs in documents 0, n/2, n-1.  Values are
 // functions of the document number; `sym` documents get symbolic frequencies.
 func vpBigDocs(n int, sym map[int]bool) []*vpDoc {
+	return vpBigDocsRep(n, sym, false)
+}
+
+// vpBigDocsRep: with repeated=true every document carries field "a" twice, the
+// second instance holding term "x" again (frequency 1, no location), so the
+// number of term instances differs from the number of documents.
+func vpBigDocsRep(n int, sym map[int]bool, repeated bool) []*vpDoc {
 	var ds []*vpDoc
 	for d := 0; d < n; d++ {
 		t := &vpTerm{term: []byte("x"), freq: 2 + d%5}
@@ -31,7 +38,11 @@ func vpBigDocs(n int, sym map[int]bool) []*vpDoc {
 		if d == 0 || d == n/2 || d == n-1 {
 			f.terms = append(f.terms, &vpTerm{term: []byte("r"), freq: 3})
 		}
-		ds = append(ds, &vpDoc{fields: []*vpField{f}})
+		doc := &vpDoc{fields: []*vpField{f}}
+		if repeated {
+			doc.fields = append(doc.fields, &vpField{name: "a", length: 1, terms: []*vpTerm{{term: []byte("x"), freq: 1}}})
+		}
+		ds = append(ds, doc)
 	}
 	return ds
 }
@@ -104,7 +115,7 @@ func vpH_C01_bigterm() {
 	if vpThorough() {
 		n = []int{1100, 2100}[vpChoice("n", 2)]
 	}
-	docs := vpBigDocs(n, map[int]bool{7: true, n - 2: true})
+	docs := vpBigDocsRep(n, map[int]bool{7: true, n - 2: true}, vpChoice("repeated-field", 2) == 1)
 	mode := []uint32{1025, 1024}[vpChoice("mode", 2)]
 	seg := vpBuild(docs, mode)
 	if vpChoice("loaded", 2) == 1 {
